@@ -135,6 +135,10 @@ func TestVerifC08(t *testing.T) {
 		c08Scenario("reuse-c4+1-all-stale", tOpt{Kind: "reuse", Callers: 5, StageTwo: 1, Srv: srvOpt{CloseBudget: 4, CloseEveryAnswer: true, ResetOnWrite: true, SilentDeath: true}}, 1, false),
 		c08Scenario("pipeline-tcp-c3+1-all-stale", tOpt{Kind: "pipeline-tcp", Callers: 4, StageTwo: 1, MaxCq: 1, LazyQueue: 1, Srv: srvOpt{CloseBudget: 3, CloseEveryAnswer: true, ResetOnWrite: true, SilentDeath: true}}, 1, false),
 		c08Scenario("pipeline-tcp-c2-peerclosed-at-dial", tOpt{Kind: "pipeline-tcp", Callers: 2, Seq: 2, Srv: srvOpt{AnswerAll: true}, DialMenu: []int{0, 4}, CtxMode: []int{1, 1}}, d2, false),
+		// a pooled connection that goes silent (black hole): the failure is a read timeout, not an EOF / reset
+		c08Scenario("pipeline-tcp-seq2-blackhole", tOpt{Kind: "pipeline-tcp", Callers: 1, Seq: 2, Srv: srvOpt{Silent: true}}, d, false),
+		c08Scenario("reuse-seq2-blackhole", tOpt{Kind: "reuse", Callers: 1, Seq: 2, Srv: srvOpt{Silent: true}}, d, false),
+		c08Scenario("pipeline-udp-c2-seq2-blackhole", tOpt{Kind: "pipeline-udp", Callers: 2, Seq: 2, Srv: srvOpt{Silent: true}}, d2, false),
 		c08Scenario("reuse-seq3-kill", tOpt{Kind: "reuse", Callers: 1, Seq: 3, Srv: kill}, d, false),
 		c08Scenario("reuse-c2-seq2-kill", tOpt{Kind: "reuse", Callers: 2, Seq: 2, Srv: kill}, d2, false),
 		c08Scenario("pipeline-tcp-c2-seq2-kill", tOpt{Kind: "pipeline-tcp", Callers: 2, Seq: 2, Srv: kill}, d2, false),
